@@ -13,9 +13,27 @@ class Uneval(Exception):
     pass
 
 
+class Excluded(Exception):
+    """the alternative belongs to a return site whose dominating comparisons are false at this point"""
+    pass
+
+
+_CMP = {'Lt': lambda a, b: a < b, 'Le': lambda a, b: a <= b, 'Gt': lambda a, b: a > b, 'Ge': lambda a, b: a >= b,
+        'Eq': lambda a, b: a == b, 'Ne': lambda a, b: a != b}
+
+
 def ev(e, params, x):
     """evaluate an elem expression; params: field index -> value; x: value of ('sym','X')"""
     k = e[0]
+    if k == 'when':
+        for c, v in e[1]:
+            try:
+                r = _CMP[c[1]](ev(c[2], params, x), ev(c[3], params, x))
+            except Uneval:
+                continue          # a comparison that cannot be evaluated excludes nothing
+            if r != v:
+                raise Excluded()
+        return ev(e[2], params, x)
     if k == 'c':
         return float(e[1])
     if k == 'ci':
@@ -169,9 +187,13 @@ TABLE = {
 
 
 def compare(alts, ref, points, trivial_ok=True):
-    """alts: list of elem expressions (alternatives); ref(params_by_name, x) ; points: list of (params_by_index, params_by_name, x).
-    returns ('ok', n) | ('viol', witness dict) | ('undecided', why)"""
+    """alts: list of elem expressions (alternatives, possibly tagged ('when', comparisons, e) with the comparisons that select their
+    return site); ref(params_by_name, x) ; points: list of (params_by_index, params_by_name, x).
+    At each point the alternatives whose comparisons are false are dropped; the code agrees with the reference there if one of the
+    remaining alternatives evaluates to the reference value.  A point where every remaining alternative is evaluable and none agrees is
+    a witness.  returns ('ok', n) | ('viol', witness dict) | ('undecided', why)"""
     n = 0
+    undecided = None
     for pidx, pname, x in points:
         try:
             want = ref(pname, x) if x is not None else ref(pname)
@@ -182,14 +204,28 @@ def compare(alts, ref, points, trivial_ok=True):
         for a in alts:
             try:
                 vals.append((a, ev(a, pidx, x)))
+            except Excluded:
+                continue
             except Uneval as e:
                 uneval = str(e)
         if any(close(float(v), float(want)) for _, v in vals):
             n += 1
             continue
         if uneval is not None:
-            return 'undecided', 'an alternative is not evaluable (%s)' % uneval
-        nontriv = [av for av in vals if av[0][0] != 'c'] or vals
+            undecided = undecided or 'an alternative is not evaluable (%s)' % uneval
+            continue
+        if not vals:
+            undecided = undecided or 'no alternative is selected at x = %r, parameters %s' % (x, pname)
+            continue
+        nontriv = [av for av in vals if _core(av[0])[0] != 'c'] or vals
         best = min(nontriv, key=lambda av: abs(av[1] - want) if not math.isnan(av[1]) else float('inf')) if nontriv else (None, float('nan'))
         return 'viol', {'params': pname, 'x': x, 'textbook': want, 'code': best[1], 'all': [v for _, v in vals]}
+    if undecided:
+        return 'undecided', undecided
     return 'ok', n
+
+
+def _core(e):
+    while isinstance(e, tuple) and e and e[0] == 'when':
+        e = e[2]
+    return e
